@@ -6,6 +6,7 @@ package schema
 // that it equals what draft-07 assigns to the shipped schema files is NOT claimed.
 
 import (
+	"errors"
 	"io"
 	"strings"
 
@@ -46,9 +47,33 @@ func stubReadFile17(name string) ([]byte, error) {
 	return vYAMLBytes, nil
 }
 
-func stubSchemaValidate17(s *gs.Schema, l gs.JSONLoader) (*gs.Result, error) { return &gs.Result{}, nil }
+// The interpreter's contract as far as the glue depends on it: loaders that hand it JSON text or marshal a Go value
+// (bytes, reader, Go, reference loaders) present the *normalised* document, whose verdict is the one uninterpreted
+// boolean vDocValid; bytes that are not JSON fail to load; a raw loader presents whatever Go value it was given without
+// normalisation (gojsonschema documents NewRawLoader as "no conversion"), so its verdict is a different, unconstrained boolean.
+var (
+	vRawLoaderUsed bool
+	vRawVerdict    bool
+	vCurVerdict    bool
+)
 
-func stubResultValid17(r *gs.Result) bool { return vDocValid }
+func stubNewRawLoader17(src interface{}) gs.JSONLoader {
+	vRawLoaderUsed = true
+	return gs.NewGoLoader(src)
+}
+
+func stubSchemaValidate17(s *gs.Schema, l gs.JSONLoader) (*gs.Result, error) {
+	vCurVerdict = vDocValid
+	if vRawLoaderUsed {
+		vRawLoaderUsed = false
+		vCurVerdict = vRawVerdict
+	} else if b, ok := l.JsonSource().([]byte); ok && len(b) > 0 && b[0] != '{' {
+		return nil, errors.New("invalid character looking for beginning of value")
+	}
+	return &gs.Result{}, nil
+}
+
+func stubResultValid17(r *gs.Result) bool { return vCurVerdict }
 
 type vReader struct{}
 
@@ -77,7 +102,12 @@ func vAnnotations(p string) (interface{}, bool, bool) {
 }
 
 func H_C17_glue() {
+	// (the package initialiser is not run by the engine: set the document bytes here)
+	vJSONBytes = []byte(`{"doc":1}`)
+	vYAMLBytes = []byte("doc: 1")
 	vDocValid = nondetBool("schema-verdict-of-the-document")
+	vRawVerdict = nondetBool("schema-verdict-of-an-unnormalised-value")
+	vRawLoaderUsed = false
 	vTree = map[string]interface{}{"cdiVersion": "0.6.0", "kind": "v/c"}
 	wf := true
 	if a, present, ok := vAnnotations("s."); present {
